@@ -28,6 +28,7 @@ from ..common import (
     subgraph_state,
 )
 from ..engine import EventLog, Outcome, bump, h64, violation
+from .c07 import lay_out
 
 PID = "C17"
 RULE = (
@@ -55,7 +56,7 @@ ASSUMPTIONS = [
 ]
 
 
-EXPECTED_PROBES = ['best_is_last_iteration_and_it_swapped', 'prune_on_an_already_used_object', 'accuracy_zero_in_every_iteration', 'best_iteration_is_not_last', 'learn_swapped_rows', 'more_fits_than_n_iterations', 'nan_weight_no_relevance_verdict', 'prototype_index_drawn', 'prune_discarded_rows', 'prune_dropped_a_relevant_row', 'tie_for_best_accuracy', 'unique_winner_is_first_of_conquest_order', 'winner_is_first_of_conquest_order']
+EXPECTED_PROBES = ['non_contiguous_caller_arrays', 'fit_with_identifiers_unlike_positions', 'best_is_last_iteration_and_it_swapped', 'prune_on_an_already_used_object', 'accuracy_zero_in_every_iteration', 'best_iteration_is_not_last', 'learn_swapped_rows', 'more_fits_than_n_iterations', 'nan_weight_no_relevance_verdict', 'prototype_index_drawn', 'prune_discarded_rows', 'prune_dropped_a_relevant_row', 'tie_for_best_accuracy', 'unique_winner_is_first_of_conquest_order', 'winner_is_first_of_conquest_order']
 
 
 def arms(tier):
@@ -115,8 +116,17 @@ def gen_case(rng, arm, tier, k=0):
                 draws.append(["prev"])
             else:
                 draws.append(rng.choice((["lo"], ["hi"])))
+    # the caller's feature arrays need not be C-contiguous (e.g. the column slice that
+    # parse_loader returns, a Fortran-ordered array, every second row of a larger buffer)
+    case["layout_t"] = rng.choice(("c", "c", "f", "cols", "strided"))
+    case["layout_v"] = rng.choice(("c", "c", "f", "cols", "strided"))
     if arm == "relevance":
         case["passes"] = rng.randint(1, 3)
+        if rng.random() < 0.4:
+            # identifiers that differ from positions (they only name the samples)
+            ids = list(range(nt + 3))
+            rng.shuffle(ids)
+            case["ids"] = ids[:nt]
     if arm == "seq":
         # several calls on ONE model object, sharing the caller's arrays
         case["op"] = "seq"
@@ -417,8 +427,11 @@ def run_case(case):
         ):
             raise OutOfDomain()
         d = len(case["Xt"][0])
-        Xt, Yt = arr(case["Xt"]).reshape(-1, d), iarr(case["Yt"])
-        Xv, Yv = arr(case["Xv"]).reshape(-1, d), iarr(case["Yv"])
+        _, Xt = lay_out(arr(case["Xt"]).reshape(-1, d), case.get("layout_t", "c"))
+        _, Xv = lay_out(arr(case["Xv"]).reshape(-1, d), case.get("layout_v", "c"))
+        Yt, Yv = iarr(case["Yt"]), iarr(case["Yv"])
+        if not (Xt.flags.c_contiguous and Xv.flags.c_contiguous):
+            bump(out.probes, "non_contiguous_caller_arrays")
         obs.caller = (Xt, Yt, Xv, Yv)
         obs.fits_in_step = 0
         obs.stale_checked = False
@@ -506,7 +519,11 @@ def run_case(case):
                 lib_call("predict", opf.predict, Xv.copy())
                 state_bits.append((step,))
             else:
-                lib_call("fit", opf.fit, Xt, Yt)
+                if case.get("ids") and len(case["ids"]) == len(Xt):
+                    lib_call("fit", opf.fit, Xt, Yt, iarr(case["ids"]))
+                    bump(out.probes, "fit_with_identifiers_unlike_positions")
+                else:
+                    lib_call("fit", opf.fit, Xt, Yt)
                 for p in range(case.get("passes", 1)):
                     # later passes predict other rows: flags accumulate over passes on one model
                     Xq = Xv if p == 0 else (Xt if p == 1 else Xv[::-1])
@@ -538,6 +555,15 @@ def shrink(case):
             c[key] = case[key][:i] + case[key][i + 1 :]
             c[lab] = case[lab][:i] + case[lab][i + 1 :]
             yield c
+    for key in ("layout_t", "layout_v"):
+        if case.get(key, "c") != "c":
+            c = dict(case)
+            c[key] = "c"
+            yield c
+    if case.get("ids"):
+        c = dict(case)
+        c.pop("ids")
+        yield c
     if case["iters"] > 1:
         c = dict(case)
         c["iters"] = case["iters"] - 1
